@@ -526,8 +526,8 @@ PROPS["C11"] = dict(
     quick=[
         R("sync", "plain", 8, 400, ["mode=serial"]),
         R("sync", "asan", 4, 60, ["mode=serial"]),
-        R("sync", "tsan", 4, 40, ["mode=jitter"], timeout=300),
-        R("sync", "asan", 2, 30, ["mode=jitter"], timeout=300),
+        R("sync", "tsan", 4, 40, ["mode=jitter"], timeout=900),
+        R("sync", "asan", 2, 30, ["mode=jitter"], timeout=900),
     ],
     thorough=[
         R("sync", "plain", 16, 4000, ["mode=serial"], timeout=7200),
@@ -561,8 +561,8 @@ PROPS["C10"] = dict(
     quick=[
         R("pool", "plain", 8, 150, ["mode=serial"]),
         R("pool", "asan", 4, 30, ["mode=serial"]),
-        R("pool", "tsan", 4, 20, ["mode=jitter"], timeout=300),
-        R("pool", "asan", 2, 20, ["mode=jitter"], timeout=300),
+        R("pool", "tsan", 4, 20, ["mode=jitter"], timeout=900),
+        R("pool", "asan", 2, 20, ["mode=jitter"], timeout=900),
     ],
     thorough=[
         R("pool", "plain", 16, 6000, ["mode=serial"], timeout=7200),
@@ -600,8 +600,8 @@ PROPS["C12"] = dict(
         R("cptr", "plain", 4, 600, ["mode=seq"]),
         R("cptr", "plain", 8, 120, ["mode=serial"]),
         R("cptr", "asan", 4, 30, ["mode=serial"]),
-        R("cptr", "tsan", 4, 20, ["mode=jitter"], timeout=300),
-        R("cptr", "asan", 2, 20, ["mode=jitter"], timeout=300),
+        R("cptr", "tsan", 4, 20, ["mode=jitter"], timeout=900),
+        R("cptr", "asan", 2, 20, ["mode=jitter"], timeout=900),
         R("cptr", "plain", 1, 1, ["mode=wide"]),
     ],
     thorough=[
@@ -638,9 +638,9 @@ PROPS["C12"] = dict(
 PROPS["C07"] = dict(
     units={"pmwm": dict(src=["harness/C07_parallel_merge.cpp"], tlx=["tlx/algorithm/parallel_multiway_merge.cpp"])},
     quick=[
-        R("pmwm", "plain", 6, 400, timeout=300),
-        R("pmwm", "asan", 6, 100, timeout=300),
-        R("pmwm", "tsan", 4, 50, timeout=300),
+        R("pmwm", "plain", 6, 400, timeout=900),
+        R("pmwm", "asan", 6, 100, timeout=900),
+        R("pmwm", "tsan", 4, 50, timeout=900),
     ],
     thorough=[
         R("pmwm", "plain", 16, 3000, timeout=7200),
@@ -673,11 +673,11 @@ PROPS["C06"] = dict(
            "pms_sched": dict(src=["harness/C06_parallel_mergesort.cpp"], tlx=["tlx/algorithm/parallel_multiway_merge.cpp"],
                              flags=_SCHED_FLAGS)},
     quick=[
-        R("pms", "asan", 6, 25, timeout=300),
-        R("pms", "plain", 4, 60, timeout=300),
-        R("pms", "tsan", 4, 10, ["tracked_every=8"], timeout=300),
-        R("pms", "plain", 2, 2, ["big=1"], timeout=300),
-        R("pms_sched", "plain", 4, 25, ["mode=serial"], timeout=300),
+        R("pms", "asan", 6, 25, timeout=900),
+        R("pms", "plain", 4, 60, timeout=900),
+        R("pms", "tsan", 4, 10, ["tracked_every=8"], timeout=900),
+        R("pms", "plain", 2, 2, ["big=1"], timeout=900),
+        R("pms_sched", "plain", 4, 25, ["mode=serial"], timeout=900),
     ],
     thorough=[
         R("pms", "asan", 16, 500, timeout=7200),
